@@ -361,6 +361,17 @@ func (s *Sched) Await(pred func() bool, why string) {
 	}
 }
 
+// BlockedNow reports what every currently blocked thread is blocked in (thread id -> reason).
+func (s *Sched) BlockedNow() map[int]string {
+	m := map[int]string{}
+	for _, t := range s.threads {
+		if t.state == stBlocked {
+			m[t.ID] = t.Why
+		}
+	}
+	return m
+}
+
 // Cur returns the running managed thread id (-1 during setup).
 func (s *Sched) Cur() int {
 	if s.cur == nil {
